@@ -10,7 +10,7 @@ RELAX = ['rate', 'level_lo', 'level_hi', 'end_level', 'simult', 'hold', 'outside
 def families(tier):
     th = tier == 'thorough'
     fs = [('storage', fam.fam_storage(thorough=th)), ('storage_mip', fam.fam_storage_mip(thorough=th)),
-          ('storage_hold', fam.fam_storage_hold_T()), ('storage_blocks', fam.fam_storage_blocks(thorough=th, inflow=(0, 1)))]
+          ('storage_hold', fam.fam_storage_hold_T()), ('storage_hold_start', fam.fam_storage_hold_start()), ('storage_blocks', fam.fam_storage_blocks(thorough=th, inflow=(0, 1)))]
     if th:
         fs.append(('storage_T4', fam.fam_storage(T=4)))
         fs.append(('storage_T5_hold', fam.fam_storage_hold_T(T=5)))
@@ -31,7 +31,6 @@ def run(tier, seed):
     # larger seeded portfolios (T = 12 / 24, up to 10 assets): TLC validates the optimiser's output, it does not enumerate
     common.code_to_spec(chk, fam.fam_random(seed + 200, n=16 if tier == 'quick' else 80, T=12 if tier == 'quick' else 24, storages=(2, 4)), lambda c: R.Real(c), tag='random', solvers=('SCIPY', None))
     chk.assumptions += ['storage parameters in the documented domain: 0 <= start_level <= size, rates >= 0, efficiency > 0',
-                        'maximum holding duration is exercised with start_level = 0 in the quick tier',
                         'time blocks: holding cost 0 (the documented block semantics says nothing about cost across blocks)']
     return chk.finish(rule='storage variants (size, rates, efficiency 1 and 1/2, start/end level, inflow, costs) x window placement x one/two nodes '
                            'x price series; MIP options (no simultaneous in/out, maximum holding duration) and time blocks; '
